@@ -140,6 +140,19 @@ var props = []*prop{
 		Thorough: budget{Shards: 14, Checks: 5000, TimeoutS: 5000},
 	},
 	{
+		ID: "C05", Pkg: "c05", Level: "exploration",
+		Technique:   "property-based testing (rapid) of generated concurrent workloads under the Go race detector, with scribbling of redeemed objects and seeded yields at redeem points; differential against sequentially computed outcomes",
+		LevelText:   "2..64 goroutines released together, each issuing a generated sequence of AgainstSchema calls on shared reference-free schemas, Validate calls on a shared long-lived validator, whole-specification validations of its own document, value helpers incl. Pattern, plus a goroutine toggling SetContinueOnErrors; every call must return what it returned sequentially and the race detector must stay silent. Most shards run the -race binary, the rest a plain binary with more cases.",
+		LevelNote:   "Interleavings are sampled (the Go scheduler is not under the harness's control); amplifiers: happens-before race detection of executed access pairs, deterministic poisoning of redeemed objects, yields at redeem points, GOMAXPROCS in {1,2,4,16}. Failures needing a specific interleaving without any racing access or redeemed object remain out of reach; liveness is not addressed.",
+		Assumptions: trusted,
+		Builds: []buildVariant{
+			{Name: "race", Tags: []string{"verif"}, Race: true, ShardShare: 0.7},
+			{Name: "plain", Tags: []string{"verif"}, ShardShare: 0.3, ChecksScale: 5},
+		},
+		Quick:    budget{Shards: 14, Checks: 9, TimeoutS: 900},
+		Thorough: budget{Shards: 14, Checks: 150, TimeoutS: 6000},
+	},
+	{
 		ID: "C06", Pkg: "c06", Level: "exploration",
 		Technique:   "property-based robustness testing (rapid; native coverage-guided go fuzzing of the same property in the thorough tier) with a no-panic / non-nil-result oracle and an allow-list of exactly the documented panic",
 		LevelText:   "Degenerate-friendly schema grammar x derived, random and extreme instances x json.Number x every option subset x three registries x both entry points; each call must return normally with a non-nil result; the only panic accepted is the documented 'Invalid schema provided' one and only when an unresolvable $ref was planted. Exploration (plus coverage-guided fuzzing in thorough) suits an all-inputs crash-freedom claim.",
